@@ -1779,7 +1779,16 @@ class GlyphComponent(object):
         # this TT feature.
         if hasattr(self, "transform"):
             [[xx, xy], [yx, yy]] = self.transform
-            trans = (xx, xy, yx, yy, self.x, self.y)
+            x, y = self.x, self.y
+            apple_way = self.flags & SCALED_COMPONENT_OFFSET
+            ms_way = self.flags & UNSCALED_COMPONENT_OFFSET
+            if apple_way and not ms_way or (
+                not (apple_way or ms_way) and SCALE_COMPONENT_OFFSET_DEFAULT
+            ):
+                # the Apple way: the component offset is scaled too
+                # (same as in Glyph.getCoordinates)
+                x, y = x * xx + y * yx, x * xy + y * yy
+            trans = (xx, xy, yx, yy, x, y)
         else:
             trans = (1, 0, 0, 1, self.x, self.y)
         return self.glyphName, trans
